@@ -13,7 +13,7 @@ RULE = ("blocks B from the generators and the corpus; B' by semantic mutation op
         "boundary, dropped / duplicated / swapped stores, DUP/SWAP index +-1, deleted instruction with compensating POP/PUSH); a pair "
         "enters the test ONLY if the reference interpreter finds a state that distinguishes B and B' (otherwise it is discarded and "
         "counted); then compare_asm_block_asm_format(B,B') must answer False; compare(B,B) must answer True for every generated "
-        "and corpus block; the Forves adapter's rendering is re-parsed by an own reader (one example per optimizable segment, each "
+        "and corpus block and for the sharing / memory templates of the rule catalogue (the whole catalogue in thorough); the Forves adapter's rendering is re-parsed by an own reader (one example per optimizable segment, each "
         "decoding to exactly that segment of each block) and the external checker may answer 'true' only for pairs without a "
         "distinguishing state; non-trivial = mutant with a concrete distinguishing state; distinct by (operator, block)")
 ASSUME = ["reference interpreter vf/evm.py decides distinguishability on >= 60 states; undistinguished mutants are not judged",
@@ -256,6 +256,21 @@ def systematic_pairs():
     return out
 
 
+def shard_reflexive(temps, sd):
+    """compare(B,B) over the rule catalogue's sharing and memory templates (blocks on which rules fire)"""
+    hermetic.setup_repo()
+    stats = runner.Stats()
+    rng = random.Random(sd)
+    for label, instrs in temps:
+        argv = rng.choice([["-greedy"], ["-storage", "-greedy"], ["-partition", "-greedy"]])
+        runner.journal({"type": "reflexive", "blocks": [asm.instrs_to_plain(instrs)], "argv": argv})
+        fs = check_reflexive(instrs, argv, stats, "catalogue")
+        if fs:
+            for f in pipeline.confirmed(fs, lambda: _redo(fs), stats):
+                stats.fail(f)
+    return stats
+
+
 def shard_systematic(pairs, sd):
     hermetic.setup_repo()
     stats = runner.Stats()
@@ -493,5 +508,12 @@ def main(tier, seed_):
     stats.merge(runner.merge_stats(res))
     res = runner.run_shards(_dispatch, [(shard_systematic, (ch, runner.shard_seed(seed_, i, "c05s"))) for i, ch in
                                         enumerate(runner.chunks(systematic_pairs(), runner.NPROC)) if ch])
+    stats.merge(runner.merge_stats(res))
+    from .. import catalogue
+    temps = catalogue.sharing_templates() + catalogue.memory_templates("quick")
+    if tier != "quick":
+        temps = catalogue.templates("quick")
+    res = runner.run_shards(_dispatch, [(shard_reflexive, (ch, runner.shard_seed(seed_, i, "c05r"))) for i, ch in
+                                        enumerate(runner.chunks(temps, runner.NPROC)) if ch])
     stats.merge(runner.merge_stats(res))
     return runner.conclude(ID, tier, seed_, stats, RULE, ASSUME, t0, exhaustive=False, shrink=shrink)
